@@ -195,13 +195,54 @@ def run_trace(module, trace_path, timeout=1200, heap="3g", cfg=None):
 
 # ----------------------------------------------------------------------------------- harness runs
 
-def run_harness(args, timeout=1500):
-    rc, out = sh([HARNESS] + args, timeout=timeout)
-    if rc != 0:
+# signals a process raises against itself when the code it runs goes wrong (SIGILL, SIGABRT, SIGBUS, SIGFPE, SIGSEGV);
+# SIGKILL / SIGTERM (out of memory, timeouts) stay machinery failures
+CRASH_SIGNALS = (4, 6, 7, 8, 11)
+
+
+class HarnessCrash(Exception):
+    def __init__(self, sig, args):
+        super().__init__(f"harness killed by signal {sig}: {' '.join(args)}")
+        self.sig = sig
+        self.args_ = args
+
+
+def run_harness(args, timeout=1500, env=None):
+    """Runs one harness command. The harness executes arroy in-process, so arroy can kill it (stack overflow, segmentation
+    fault, abort). For the history drivers that is DATA: the history in progress is replaced by a `Crash` event and the
+    command is run again without it (at most 8 times). For the other drivers HarnessCrash is raised."""
+    crashed = []
+    prefix = args[args.index("--out") + 1] if "--out" in args else None
+    for _ in range(9):
+        e = dict(env or {})
+        a = list(args)
+        if prefix and args[0] in ("gen", "family", "from-model", "replay"):
+            e["VERIF_PROGRESS_FILE"] = prefix + ".progress"
+            if crashed:
+                a += ["--crashed", ",".join(f"{h}:{k}:{sg}" for h, k, sg in crashed)]
+        rc, out = sh([HARNESS] + a, timeout=timeout, env=e)
+        if rc == 0:
+            last = [ln for ln in out.strip().splitlines() if ln.startswith("{")]
+            st = json.loads(last[-1]) if last else {}
+            if crashed:
+                st["crashed_histories"] = [list(c) for c in crashed]
+            return st
+        if -rc in CRASH_SIGNALS:
+            log(out[-1500:])
+            pos = None
+            if "VERIF_PROGRESS_FILE" in e and os.path.exists(e["VERIF_PROGRESS_FILE"]):
+                try:
+                    pos = [int(x) for x in open(e["VERIF_PROGRESS_FILE"]).read().split()[:2]]
+                except ValueError:
+                    pos = None
+            if pos and len(pos) == 2 and not any(c[0] == pos[0] for c in crashed):
+                log(f"[harness] killed by signal {-rc} during operation {pos[1]} of history {pos[0]}: recorded as a Crash event, running the rest again")
+                crashed.append((pos[0], pos[1], -rc))
+                continue
+            raise HarnessCrash(-rc, args)
         log(out[-3000:])
         raise ToolError(f"harness failed: {' '.join(args)}")
-    last = [ln for ln in out.strip().splitlines() if ln.startswith("{")]
-    return json.loads(last[-1]) if last else {}
+    raise HarnessCrash(crashed[-1][2], args)
 
 
 def gen_and_validate(jobs, module="TraceMain.tla", parallel=8):
@@ -211,7 +252,19 @@ def gen_and_validate(jobs, module="TraceMain.tla", parallel=8):
 
     def one(job):
         prefix = f"{d}/{job['name']}"
-        st = run_harness(job["args"] + ["--out", prefix])
+        try:
+            st = run_harness(job["args"] + ["--out", prefix])
+        except HarnessCrash as hc:
+            # a driver without per-history recovery: the whole job counts as one violated case
+            log(f"[harness] {hc}")
+            open(prefix + ".ndjson", "w").close()
+            open(prefix + ".hist.json", "w").write("[]")
+            st = dict(histories=1, schedules=1, events=0, builds_ok=0, builds_err=0, panics=0, nontrivial_builds=0, distinct_forests=0, first_no=0,
+                      observations=0, kill_points=0, threads=1)
+            v = dict(h=0, k=0, line=0, prop="*", conj=f"process_killed_by_signal_{hc.sig}_in_driver_{job['args'][0]}", ev="Crash")
+            if job.get("kind") == "sched":
+                st = dict(histories=1, events=0, builds_ok=0, builds_err=0, panics=0, nontrivial_builds=0, distinct_forests=0, first_no=0, exhaustive_configs=0, configs=0)
+            return dict(job=job, stats=st, viols=[v], drifts=[], lines=0, wall=0.0, prefix=prefix, crashed=True)
         viols, drifts, n, wall = run_trace(job.get("module", module), prefix + ".ndjson", heap=job.get("heap", "3g"))
         if job.get("kind") == "sched":
             st = dict(histories=st["schedules"], events=st["schedules"], builds_ok=0, builds_err=0, panics=0, nontrivial_builds=0,
